@@ -309,6 +309,25 @@ def run_one(ns, i, seed_i, tier):
         if res["unwound"]:
             unwound_before = True
             counters["probe:exception_unwound_through_inflight_state"] = counters.get("probe:exception_unwound_through_inflight_state", 0) + 1
+    # a sample of probes is additionally executed in a truly fresh interpreter (python -B, own hash seed)
+    if executed and not violations and rng.random() < 0.04:
+        import os
+        import subprocess
+        import sys
+        from .. import boot
+        cls, op = executed[-1]
+        env = dict(os.environ, PYTHONPATH=boot.VERIF, PYTHONHASHSEED=str(rng.randint(0, 1000)), PYTHONDONTWRITEBYTECODE="1")
+        p = subprocess.run([sys.executable, "-B", "-m", "sim.freshop"], input=jdump(op), cwd=boot.VERIF, env=env,
+                           stdout=subprocess.PIPE, stderr=subprocess.PIPE, text=True, timeout=300)
+        counters["fresh_interpreter_references"] = 1
+        counters["evaluations"] += 1
+        mine = jdump(result_key(procs.fork_call(drivers.run_op, ns, op, timeout=300)))
+        if p.returncode != 0:
+            raise procs.HarnessError("fresh interpreter failed: " + p.stderr[-500:])
+        if p.stdout != mine:
+            violations.append({"key": "fresh-process-differs", "kind": "C18",
+                               "what": "operation %s gives a different result in a fresh interpreter than in a child forked from the worker" % cls,
+                               "history": [op], "classes": [cls]})
     first_unwound = next((k for k, r in enumerate(hist["results"]) if r["unwound"]), None)
     if first_unwound is not None and first_unwound < len(executed) - 1:
         nontrivial.append(_digest((keys, fired_all)))
